@@ -609,49 +609,34 @@ func (n *BlockNode) Release() {
 
 // Render renders the block node
 func (n *BlockNode) Render(w io.Writer, ctx *RenderContext) error {
-	// Determine which content to use - from context blocks or default
-	var content []Node
-
-	// Store the current block content as parent content if needed
-	// This is critical for multi-level inheritance
-	if _, exists := ctx.parentBlocks[n.name]; !exists {
-		// First time we've seen this block - store its original content
-		// This needs to happen for any block, not just in extending templates
-		if blockContent, ok := ctx.blocks[n.name]; ok && len(blockContent) > 0 {
-			// Store the content from blocks
-			ctx.parentBlocks[n.name] = blockContent
-		} else {
-			// Otherwise store the default body
-			ctx.parentBlocks[n.name] = n.body
+	// The definitions of this block along the extends chain, most-derived first. A block that
+	// was not registered (it stands inside another block, a loop or a condition) is the least
+	// derived definition of its name.
+	defs := ctx.blockChain[n.name]
+	registered := false
+	for _, def := range defs {
+		if def == n {
+			registered = true
+			break
 		}
 	}
-
-	// Now get the content to render
-	if blockContent, ok := ctx.blocks[n.name]; ok && len(blockContent) > 0 {
-		content = blockContent
-	} else {
-		// Otherwise, use the default content from this block node
-		content = n.body
+	if !registered {
+		defs = append(append([]*BlockNode(nil), defs...), n)
 	}
 
 	// Save the current block for parent() function support
-	previousBlock := ctx.currentBlock
-	ctx.currentBlock = n
+	previousBlock, previousDefs, previousDepth := ctx.currentBlock, ctx.currentDefs, ctx.blockDepth
+	ctx.currentBlock, ctx.currentDefs, ctx.blockDepth = n, defs, 0
+	defer func() {
+		ctx.currentBlock, ctx.currentDefs, ctx.blockDepth = previousBlock, previousDefs, previousDepth
+	}()
 
-	// Create an isolated context for rendering this block
-	// This prevents parent() from accessing the wrong block context
-	blockCtx := ctx
-
-	// Render the appropriate content
-	for _, node := range content {
-		err := node.Render(w, blockCtx)
-		if err != nil {
+	// Render the most derived definition, even when it is empty
+	for _, node := range defs[0].body {
+		if err := node.Render(w, ctx); err != nil {
 			return err
 		}
 	}
-
-	// Restore the previous block
-	ctx.currentBlock = previousBlock
 	return nil
 }
 
@@ -759,6 +744,12 @@ func (n *ExtendsNode) Render(w io.Writer, ctx *RenderContext) error {
 	// These are the blocks that will actually be rendered
 	for name, nodes := range ctx.blocks {
 		parentCtx.blocks[name] = nodes
+	}
+	if len(ctx.blockChain) > 0 {
+		parentCtx.blockChain = make(map[string][]*BlockNode, len(ctx.blockChain))
+		for name, defs := range ctx.blockChain {
+			parentCtx.blockChain[name] = append([]*BlockNode(nil), defs...)
+		}
 	}
 
 	// Render the parent template with the updated context
@@ -1524,6 +1515,13 @@ func (n *RootNode) Render(w io.Writer, ctx *RenderContext) error {
 		}
 	}
 
+	// Every block of this template, wherever it stands, is a definition of its name. Definitions
+	// of more derived templates come first, these go behind them.
+	if ctx.blockChain == nil {
+		ctx.blockChain = make(map[string][]*BlockNode)
+	}
+	collectBlocks(n.children, ctx.blockChain)
+
 	// If this template extends another, handle that first
 	if extendsNode != nil {
 		// Let the extends node handle the rendering, passing along
@@ -1540,6 +1538,30 @@ func (n *RootNode) Render(w io.Writer, ctx *RenderContext) error {
 		}
 	}
 	return nil
+}
+
+// collectBlocks appends every block found in nodes (also inside blocks, loops, conditions,
+// apply and spaceless bodies) to the chain of definitions of its name
+func collectBlocks(nodes []Node, chain map[string][]*BlockNode) {
+	for _, node := range nodes {
+		switch v := node.(type) {
+		case *BlockNode:
+			chain[v.name] = append(chain[v.name], v)
+			collectBlocks(v.body, chain)
+		case *IfNode:
+			for _, body := range v.bodies {
+				collectBlocks(body, chain)
+			}
+			collectBlocks(v.elseBranch, chain)
+		case *ForNode:
+			collectBlocks(v.body, chain)
+			collectBlocks(v.elseBranch, chain)
+		case *ApplyNode:
+			collectBlocks(v.body, chain)
+		case *SpacelessNode:
+			collectBlocks(v.body, chain)
+		}
+	}
 }
 
 // Release returns a RootNode to the pool
